@@ -99,7 +99,12 @@ def build(rec, markers):
             res[NAMES[r['nc']]] = RaisingRepr(markers[r['nc']])     # a secret is never repr()-ed, so this is harmless
     mws = []
     if 'cookie' in rec['mws']:
-        mws.append(SignedCookieMiddleware(secret_key=(KEYMARK * 2).encode('ascii')))
+        ck_cls = SignedCookieMiddleware
+        if rec.get('_variant', 0) % 3 == 1:
+            # an application's own flavour of the cookie middleware (a subclass that overrides nothing that matters here)
+            ck_cls = type('SessionCookieMiddleware', (SignedCookieMiddleware,), {'flavour': 'session'})
+        key = (KEYMARK * 2).encode('ascii') if rec.get('_variant', 0) % 2 else (KEYMARK * 2)
+        mws.append(ck_cls(secret_key=key))
     if 'brokenrepr' in rec['mws']:
         mws.append(BrokenReprMw())
     if 'plain' in rec['mws']:
